@@ -144,6 +144,11 @@ class Trace:
         self.created = set()  # identities of arrays made by a constructor call (np.zeros, ...)
         self.opaque = set()   # identities of stored-through locals bound to a value that may be a view of another array of the trace
         self.forked = []      # (test node, function name, key of the test value): tests the configuration left open, taken one way on this path
+        self.raised = None    # (raise statement, function name): the evaluated path ends in an exception (nothing is returned on it)
+        self.lost = []        # (node, function name, why): a store / a mutation the evaluator could not attribute to an array of the trace
+        self.escaped = []     # (node, function name, callee, identities): an array of the trace handed to code that was not followed
+        self.closures = {}    # symbol name -> (FunctionDef | Lambda, defining evaluator)
+        self.sobj = {}        # key of an index object np.s_[...] -> the subscript it was written with
 
     def tick(self):
         self.seq += 1
@@ -186,6 +191,7 @@ class Config:
     def __init__(self, table, label=""):
         self.label = label
         self.tab = {}
+        self.strings = {}     # key of a container symbol -> [(literal item value, member?)]: the concrete string the configuration stands for
         ev = AutoEvaluator(None)
         ev.erase_T = True
         for text, val in table.items():
@@ -197,6 +203,10 @@ class Config:
     def _put(self, v, val):
         self.tab[vkey(v)] = val
         u = unfn(v)
+        if u is not None and u[0] == "cmp:In" and len(u[1]) == 2 and not isinstance(u[1][0], str) and not isinstance(u[1][1], str) \
+                and sym_name(u[1][1]) is not None and _literal_like(u[1][0]) is not None:
+            lst = self.strings.setdefault(vkey(u[1][1]), [])
+            lst[:] = [(x, b) for x, b in lst if not x.equals(u[1][0])] + [(u[1][0], val)]
         if u is not None and u[0].startswith("cmp:") and len(u[1]) == 2 and not isinstance(u[1][0], str) and not isinstance(u[1][1], str):
             op = u[0][4:]
             a, b = u[1]
@@ -206,6 +216,31 @@ class Config:
                 self.tab[vkey(F.fn("cmp:" + _SWAP[op], b, a))] = val
                 if _SWAP[op] in _NEG:
                     self.tab[vkey(F.fn("cmp:" + _NEG[_SWAP[op]], b, a))] = not val
+
+    def items_of(self, v, depth=0):
+        """the items of a container value, when they can be listed: a literal string / tuple, set(...) & co. of one, or a symbol the
+        configuration fixes the membership of (the configuration then stands for the concrete input made of exactly those items)"""
+        if v is None or is_unknown(v) or isinstance(v, DictValue) or depth > 4:
+            return None
+        if isinstance(v, tuple):
+            return list(v) if not any(is_unknown(x) or isinstance(x, (tuple, DictValue)) for x in v) else None
+        s = sym_name(v)
+        if s is not None:
+            if len(s) >= 2 and s[0] in "'\"" and s[-1] == s[0]:
+                try:
+                    return [F.sym(repr(ch)) for ch in ast.literal_eval(s)]
+                except Exception:  # noqa
+                    return None
+            lst = self.strings.get(vkey(v))
+            return [x for x, b in lst if b] if lst else None
+        u = unfn(v)
+        if u is not None:
+            vals = [a for a in u[1] if not isinstance(a, str)]
+            if u[0] in _SETLIKE_CALLS and len(vals) == 1:
+                return self.items_of(vals[0], depth + 1)
+            if u[0] == "tuple":
+                return vals
+        return None
 
     def truth(self, v):
         if v is None or is_unknown(v) or isinstance(v, (tuple, DictValue)):
@@ -281,8 +316,27 @@ class Config:
                 r = self._member(a, b)
                 if r is not None:
                     return r if op == "In" else (not r)
-        if name == "call:bool" and len(args) == 1:
-            return self.truth(args[0])
+        if name in ("call:bool", "call:len") and len(args) == 1:
+            return self.truth(args[0])          # (len(x) as a test: x is not empty)
+        if name in ("call:.isdisjoint", "call:.issuperset", "call:.issubset") and len(args) == 2:
+            a, b = args
+            if name == "call:.isdisjoint":
+                for x, y in ((a, b), (b, a)):
+                    its = self.items_of(x)
+                    if its is not None:
+                        rs = [self._member(it, y) for it in its]
+                        if any(r is True for r in rs):
+                            return False
+                        return True if all(r is False for r in rs) else None
+                return None
+            sub, sup = (b, a) if name == "call:.issuperset" else (a, b)
+            its = self.items_of(sub)
+            if its is None:
+                return None
+            rs = [self._member(it, sup) for it in its]
+            if any(r is False for r in rs):
+                return False
+            return True if all(r is True for r in rs) else None
         if name == "call:.count" and len(args) == 2:
             return self._member(args[1], args[0])          # s.count(x) as a test: x in s
         if name in _SETLIKE_CALLS and len(args) == 1:
@@ -403,6 +457,7 @@ class Opts:
 _TRIVIAL_INDEX = {"None", "np.newaxis", "numpy.newaxis", "Ellipsis"}
 _SOLVES = {"la.solve": "solve", "np.linalg.solve": "solve", "scipy.linalg.solve": "solve", "linalg.solve": "solve", "numpy.linalg.solve": "solve",
            "la.lu_solve": "lu_solve", "scipy.linalg.lu_solve": "lu_solve", "linalg.lu_solve": "lu_solve"}
+_SOLVE_PARAMS = {"solve": ("a", "b"), "lu_solve": ("lu_and_piv", "b")}
 _PRODUCTS = {"np.matmul", "np.dot", "np.multiply", "np.outer", "numpy.matmul", "numpy.dot", "np.inner"}
 _ARRAY_CTORS = {"np.zeros", "np.empty", "np.zeros_like", "np.empty_like", "numpy.zeros", "numpy.empty"}
 _ONE = {"np.eye", "np.identity", "np.ones", "np.ones_like"}
@@ -410,6 +465,19 @@ _CMP_UFUNCS = {"np.not_equal": ast.NotEq, "np.equal": ast.Eq, "np.greater": ast.
                "np.less_equal": ast.LtE, "numpy.not_equal": ast.NotEq, "numpy.equal": ast.Eq, "operator.ne": ast.NotEq, "operator.eq": ast.Eq}
 _STACKS = {"np.column_stack", "np.stack", "np.hstack", "np.vstack", "np.array", "np.asarray", "np.concatenate", "numpy.column_stack"}
 _NAMESPACES = ("SimpleNamespace", "types.SimpleNamespace", "Namespace", "argparse.Namespace")
+_PURE_PREFIX = ("np.", "numpy.", "la.", "scipy.", "linalg.", "math.", "cmath.", "warnings.", "itertools.", "operator.", "functools.")
+_INPLACE = {"np.copyto", "np.put", "np.place", "np.putmask", "np.fill_diagonal", "np.put_along_axis", "numpy.copyto", "numpy.put", "numpy.place",
+            "numpy.putmask", "numpy.fill_diagonal", "np.add.at", "np.subtract.at", "np.multiply.at", "np.random.shuffle"}
+_PURE_BUILTINS = {"len", "abs", "isinstance", "issubclass", "min", "max", "sum", "float", "complex", "int", "bool", "range", "zip", "enumerate", "tuple",
+                  "list", "set", "frozenset", "sorted", "reversed", "type", "print", "id", "str", "repr", "getattr", "hasattr", "any", "all", "iter",
+                  "dict", "slice", "divmod", "round", "pow", "callable"}
+_PURE_METHODS = {"sum", "dot", "reshape", "astype", "conj", "conjugate", "copy", "transpose", "mean", "max", "min", "any", "all", "ravel", "flatten",
+                 "tolist", "item", "nonzero", "squeeze", "std", "var", "cumsum", "prod", "argmax", "argmin", "round", "clip", "take", "repeat",
+                 "diagonal", "trace", "swapaxes", "items", "values", "keys", "get", "index", "count", "format", "join", "split", "startswith",
+                 "endswith", "lower", "upper", "strip", "difference", "union", "intersection", "symmetric_difference", "isdisjoint", "issuperset",
+                 "issubset", "find", "warn"}
+_REFLECTIVE = {"exec", "eval", "locals", "globals", "vars", "compile", "__import__"}
+_INDEX_MAKERS = ("np.s_", "np.index_exp", "numpy.s_", "numpy.index_exp")
 
 
 def _consts_of(ctx, rel):
@@ -417,6 +485,42 @@ def _consts_of(ctx, rel):
     if rel not in cache:
         cache[rel] = module_consts(ctx, rel)
     return cache[rel]
+
+
+def _class_consts(ctx, classes):
+    """{name: value node} for names bound exactly once, to a literal, in the body of one of the classes (method resolution order) and never
+    assigned through `self.` / `cls.` / the class name in the modules of those classes: constants and tables a clean-up moved to class level"""
+    cache = ctx.__dict__.setdefault("_c02_class_consts", {})
+    key = tuple(classes)
+    if key in cache:
+        return cache[key]
+    out, count = {}, {}
+    written = set()
+    lit = (ast.Constant, ast.Tuple, ast.List, ast.Dict, ast.Name, ast.UnaryOp, ast.USub, ast.UAdd, ast.Load, ast.BinOp, ast.operator, ast.Attribute)
+    for rel, cls in classes:
+        try:
+            m = ctx.src.mod(rel)
+        except Exception:  # noqa
+            continue
+        for x in ast.walk(m.tree):
+            if isinstance(x, (ast.Attribute,)) and isinstance(x.ctx, (ast.Store, ast.Del)) and isinstance(x.value, ast.Name):
+                written.add(x.attr)
+            if isinstance(x, ast.Call) and dotted(x.func) == "setattr":
+                written.add("*")
+        for c in m.tree.body:
+            if isinstance(c, ast.ClassDef) and c.name == cls:
+                for st in c.body:
+                    tg = st.targets if isinstance(st, ast.Assign) else ([st.target] if isinstance(st, (ast.AnnAssign, ast.AugAssign)) else [])
+                    for t in tg:
+                        for y in ast.walk(t):
+                            if isinstance(y, ast.Name):
+                                count[y.id] = count.get(y.id, 0) + 1
+                    if isinstance(st, ast.Assign) and len(st.targets) == 1 and isinstance(st.targets[0], ast.Name) and all(isinstance(y, lit) for y in ast.walk(st.value)) \
+                            and all(y.id in ("np", "numpy", "math") for y in ast.walk(st.value) if isinstance(y, ast.Name)):
+                        out.setdefault(st.targets[0].id, st.value)
+    res = {} if "*" in written else {k: v for k, v in out.items() if count.get(k) == 1 and k not in written}
+    cache[key] = res
+    return res
 
 
 class PathEval(AutoEvaluator):
@@ -495,10 +599,12 @@ class PathEval(AutoEvaluator):
                     for b in (lo, hi)) and 0 <= int(hi.const_value()) - int(lo.const_value()) <= 8:
                 return [F.fn("idx", need(bv), F.const(k)) for k in range(int(lo.const_value()), int(hi.const_value()))]
         if isinstance(node, ast.Call) and dotted(node.func) == "zip" and node.args and not node.keywords:
-            cols = [self._literal_items(a) for a in node.args]
-            if any(c is None for c in cols):
+            starts = [self._count_start(a) for a in node.args]          # itertools.count(k): an unbounded counter column
+            cols = [None if st is not None else self._literal_items(a) for a, st in zip(node.args, starts)]
+            if any(c is None and st is None for c, st in zip(cols, starts)) or all(c is None for c in cols):
                 return None
-            return [tuple(c[k] for c in cols) for k in range(min(len(c) for c in cols))]
+            n = min(len(c) for c in cols if c is not None)
+            return [tuple(c[k] if c is not None else st + F.const(k) for c, st in zip(cols, starts)) for k in range(n)]
         if isinstance(node, ast.Call) and dotted(node.func) == "enumerate" and 1 <= len(node.args) <= 2 and not node.keywords:
             its = self._literal_items(node.args[0])
             st0 = self.ev(node.args[1]) if len(node.args) == 2 else F.const(0)
@@ -529,12 +635,17 @@ class PathEval(AutoEvaluator):
         v = self.ev(node)
         if isinstance(v, tuple):
             return list(v)
-        s = sym_name(v)
-        if s is not None and len(s) >= 2 and s[0] in "'\"" and s[-1] == s[0]:
-            try:
-                return [F.sym(repr(ch)) for ch in ast.literal_eval(s)]
-            except Exception:  # noqa
-                return None
+        if isinstance(v, DictValue) and all(isinstance(k, (str, int)) for k in v.d):
+            return [F.sym(repr(k)) if isinstance(k, str) else F.const(k) for k in v.d]      # iterating a dict: its keys
+        # a literal string, set(...) of one, or the option string the configuration stands for (its letters, one by one)
+        return self.config.items_of(v) if not is_unknown(v) else None
+
+    def _count_start(self, node):
+        """itertools.count() / count(k) with a constant start: the start value, else None"""
+        if isinstance(node, ast.Call) and dotted(node.func) in ("itertools.count", "count") and len(node.args) <= 1 and not node.keywords:
+            st0 = self.ev(node.args[0]) if node.args else F.const(0)
+            if not is_unknown(st0) and not isinstance(st0, (tuple, DictValue)) and st0.is_const():
+                return st0
         return None
 
     # ---- arithmetic
@@ -603,6 +714,12 @@ class PathEval(AutoEvaluator):
                 continue
             if self.opts.erase_loop_index and s in self.trace.loop_syms:
                 continue
+            uo = unfn(v)
+            if uo is not None and uo[0] == "s_" and len(uo[1]) == 1 and not isinstance(uo[1][0], str):
+                # an index object built with np.s_[...]: the subscript it was built from
+                if len(elts) != 1:
+                    raise Unsupported("an index object next to other subscript elements")
+                return None if sym_name(uo[1][0]) == ":" else uo[1][0]
             axes.append(need(v))
         while axes and axes[-1] is None:
             axes.pop()
@@ -620,12 +737,35 @@ class PathEval(AutoEvaluator):
             return self.views[node.id]
         if isinstance(node, ast.Name) and node.id in self.buffers:
             return F.sym(self._ident(node.id))
+        if isinstance(node, ast.Lambda):
+            return self._closure(node)
+        if isinstance(node, (ast.Yield, ast.YieldFrom)):
+            return self._yield(node)
+        if isinstance(node, ast.Attribute) and isinstance(node.value, ast.Name) and node.value.id in ("self", "cls") and node.value.id not in self.buffers \
+                and f"{node.value.id}.{node.attr}" not in self.env and self.opts.classes:
+            cc = _class_consts(self.ctx, self.opts.classes)
+            if node.attr in cc and ("self." + node.attr) not in self.config_keys():
+                return self._ev(cc[node.attr])          # a constant of the class
+        if isinstance(node, ast.Subscript) and dotted(node.value) in _INDEX_MAKERS and dotted(node.value).split(".")[0] not in self.env:
+            try:
+                ix = self._index_value(node.slice)
+            except Unsupported as e:
+                return Unknown(str(e))
+            r = F.fn("s_", ix if ix is not None else F.sym(":"))
+            self.trace.sobj[vkey(r)] = node.slice
+            return r
         if isinstance(node, ast.Subscript):
             if isinstance(node.slice, ast.Constant) and isinstance(node.slice.value, str):
                 return super()._ev(node)
             base = self._ev(node.value)
             if is_unknown(base):
                 return base
+            if isinstance(base, tuple) and not isinstance(node.slice, (ast.Slice, ast.Tuple, ast.Constant)):
+                sv = self.ev(node.slice)
+                so = self.trace.sobj.get(vkey(sv)) if not is_unknown(sv) and not isinstance(sv, (tuple, DictValue)) and sv is not None else None
+                if so is not None and all(isinstance(x, (ast.Slice, ast.Tuple, ast.Constant, ast.UnaryOp, ast.USub, ast.Load)) for x in ast.walk(so)):
+                    # a sequence held item by item, indexed with an index object whose bounds are literal: the subscript it was built from
+                    return self._ev(ast.copy_location(ast.Subscript(value=node.value, slice=so, ctx=ast.Load()), node))
             if isinstance(base, DictValue):
                 kv = self.ev(node.slice)
                 ks = sym_name(kv)
@@ -668,6 +808,8 @@ class PathEval(AutoEvaluator):
                     return sc[2][node.attr]        # a field of a namespace built here: the value it was built with
         if isinstance(node, ast.Compare) and len(node.ops) == 1 and isinstance(node.ops[0], (ast.In, ast.NotIn)):
             c = self.ev(node.comparators[0])
+            if isinstance(c, DictValue) and c.d and all(isinstance(k, (str, int)) for k in c.d):
+                c = tuple(F.sym(repr(k)) if isinstance(k, str) else F.const(k) for k in c.d)      # `key in table`: its keys
             if isinstance(c, tuple) and c and not any(is_unknown(x) or isinstance(x, (tuple, DictValue)) for x in c):
                 # membership in a literal tuple / list: a value of its own (decided item by item by the configuration)
                 a = self.ev(node.left)
@@ -760,6 +902,36 @@ class PathEval(AutoEvaluator):
                 return s
         return d
 
+    def config_keys(self):
+        return getattr(self.config, "names", ())
+
+    def _yield(self, node):
+        """inside a generator function that is evaluated eagerly (`_inline`): the values it yields, in order"""
+        ys = getattr(self, "_yields", None)
+        if ys is None:
+            return Unknown("yield outside a followed generator")
+        if self._generic:
+            self._yield_bad = True          # yielded once per iteration of a loop that is not unrolled: the values cannot be listed
+            return NONE
+        if isinstance(node, ast.Yield):
+            ys.append(self.ev(node.value) if node.value is not None else NONE)
+        else:
+            v = self.ev(node.value)
+            if isinstance(v, tuple):
+                ys.extend(v)
+            else:
+                self._yield_bad = True
+        return NONE
+
+    _generic = 0
+    _yield_bad = False
+
+    def _closure(self, node):
+        """a function defined inside the evaluated one (nested def, lambda): a value of its own that remembers where it was defined"""
+        nm = f"<fn:{getattr(node, 'name', 'lambda')}#{len(self.trace.closures)}>"
+        self.trace.closures[nm] = (node, self)
+        return F.sym(nm)
+
     def _resolve(self, name):
         if name is None or name in self.opts.exclude:
             return None
@@ -792,26 +964,74 @@ class PathEval(AutoEvaluator):
 
     def _call2(self, node):
         name = self._callee_name(node)
+        if name in _REFLECTIVE or (name is None and not isinstance(node.func, ast.Attribute)):
+            # code the evaluator cannot see: whatever it writes is missing from the trace
+            self.trace.lost.append((node, getattr(self.fn, "name", "<lambda>"), f"the call `{ast.unparse(node.func)}(...)`, whose callee is not known"))
         m = self.opts.models.get(name)
         if m is not None:
             r = m(self, node)
             if r is not NotImplemented:
                 return r
+        if name in ("functools.partial", "partial") and node.args and not any(isinstance(x, ast.Starred) for x in node.args) \
+                and not any(k.arg is None for k in node.keywords):
+            # a partial application: the function it names, with the arguments given so far
+            tv = self.ev(node.args[0])
+            tn = sym_name(tv) if tv is not None and not is_unknown(tv) and not isinstance(tv, (tuple, DictValue)) else None
+            if tn is not None and (tn in self.trace.closures or self._resolve(tn) is not None):
+                nm = f"<partial:{tn}#{len(self.trace.closures)}>"
+                self.trace.closures[nm] = ("partial", tn, [self.ev(x) for x in node.args[1:]], {k.arg: self.ev(k.value) for k in node.keywords})
+                return F.sym(nm)
+        cl = self.trace.closures.get(name)
+        pre = None
+        if cl is not None and cl[0] == "partial":
+            pname = name
+            pre = (list(cl[2]), dict(cl[3]))
+            name = cl[1]
+            cl = self.trace.closures.get(name)
+            while cl is not None and cl[0] == "partial":          # a partial of a partial
+                pre = (list(cl[2]) + pre[0], {**cl[3], **pre[1]})
+                name = cl[1]
+                cl = self.trace.closures.get(name)
+            if cl is None:
+                fnp = self._resolve(name)
+                r = NotImplemented
+                if fnp is not None and not _is_checker(fnp) and self.depth < self.opts.max_depth and fnp not in self.stack:
+                    r = self._inline(fnp, node, name, pre=pre)
+                if r is not NotImplemented:
+                    return r
+                self.trace.lost.append((node, getattr(self.fn, "name", "<lambda>"), f"the call of `{pname}`, which is not followed"))
+                return Unknown(f"call of {pname}")
+        if cl is not None:
+            if self.depth < self.opts.max_depth and cl[0] not in self.stack:
+                r = self._inline(cl[0], node, name, closure=cl[1], pre=pre)
+                if r is not NotImplemented:
+                    return r
+            self._note_escape(name, node, followed=False)
+            self.trace.lost.append((node, getattr(self.fn, "name", "<lambda>"), f"the call of the local function `{name}`, which is not followed"))
+            return Unknown(f"call of the local function {name}")
         fn2 = self._resolve(name)
         if fn2 is not None and _is_checker(fn2):
             self._record(name, node)
             return NONE
-        if fn2 is not None and self.depth < self.opts.max_depth and fn2 not in self.stack:
-            r = self._inline(fn2, node, name)
-            if r is not NotImplemented:
-                return r
+        if fn2 is not None:
+            if self.depth < self.opts.max_depth and fn2 not in self.stack:
+                r = self._inline(fn2, node, name)
+                if r is not NotImplemented:
+                    return r
+            self._note_escape(name, node, followed=False)      # a function of the package that is not followed here
         args = node.args
-        if name in _SOLVES and len(args) >= 2:
-            a, b = self.ev(args[0]), self.ev(args[1])
-            self._record(name, node)
-            if is_unknown(a) or is_unknown(b) or isinstance(a, tuple) or isinstance(b, tuple):
-                return a if is_unknown(a) else (b if is_unknown(b) else Unknown("solve of tuples"))
-            return F.fn(_SOLVES[name], need(a), need(b))
+        if name in _SOLVES and not any(isinstance(x, ast.Starred) for x in args) and not any(k.arg is None for k in node.keywords):
+            # solve(a, b, ...) / lu_solve(lu_and_piv, b, ...): matrix and right-hand side, positional or by keyword
+            got = dict(zip(_SOLVE_PARAMS[_SOLVES[name]], args))
+            for k in node.keywords:
+                if k.arg in _SOLVE_PARAMS[_SOLVES[name]] and k.arg not in got:
+                    got[k.arg] = k.value
+            if len(got) == 2:
+                a, b = (self.ev(got[p_]) for p_ in _SOLVE_PARAMS[_SOLVES[name]])
+                self._record(name, node)
+                if is_unknown(a) or is_unknown(b) or isinstance(a, (tuple, DictValue)) or isinstance(b, (tuple, DictValue)):
+                    return a if is_unknown(a) else (b if is_unknown(b) else Unknown("solve of tuples"))
+                return F.fn(_SOLVES[name], need(a), need(b))
         if name in _PRODUCTS and len(args) == 2 and not node.keywords:
             return self._ev(ast.copy_location(ast.BinOp(left=args[0], op=ast.MatMult(), right=args[1]), node))
         if name in ("np.negative", "numpy.negative") and len(args) == 1:
@@ -845,10 +1065,16 @@ class PathEval(AutoEvaluator):
             # a list built by appending: item by item (in a generic loop: its generic entry)
             self.env[node.func.value.id] = self.env[node.func.value.id] + (self.ev(args[0]),)
             return NONE
+        if isinstance(node.func, ast.Attribute) and isinstance(node.func.value, ast.Name) and node.func.value.id in self.env \
+                and node.func.value.id not in self.buffers and node.func.value.id not in self.pinned \
+                and isinstance(self.env[node.func.value.id], (DictValue, tuple)):
+            r = self._container_method(node)
+            if r is not NotImplemented:
+                return r
         cp = None
         if isinstance(node.func, ast.Attribute) and node.func.attr == "copy" and not args and name not in ("np.copy", "numpy.copy"):
             cp = node.func.value
-        elif name in ("np.copy", "numpy.copy", "np.array", "numpy.array") and len(args) == 1:
+        elif name in ("np.copy", "numpy.copy", "np.array", "numpy.array", "list") and len(args) == 1:
             cp = args[0]
         if cp is not None:
             src = self.ev(cp)
@@ -911,10 +1137,111 @@ class PathEval(AutoEvaluator):
                 return self._ev(ast.copy_location(ast.BinOp(left=node.func.value, op=ast.MatMult(), right=args[0]), node))
             if meth in ("reshape", "conj_none") :
                 return self._ev(node.func.value)
+        self._note_escape(name, node)
         if any(k.arg is None for k in node.keywords) or any(isinstance(a, ast.Starred) for a in node.args):
             return self._opaque(name, node)
         r = super()._call(node)
         return r
+
+    # ---- what the evaluator does not follow must not look like "nothing happened"
+    def _idents_in(self, v, depth=0):
+        """identities of arrays of the trace a value mentions (itself, a view idx(d, rows), inside a sequence); '?' for an unknown value"""
+        if v is None or depth > 4:
+            return set()
+        if is_unknown(v):
+            return {"?"}
+        if isinstance(v, tuple):
+            out = set()
+            for x in v:
+                out |= self._idents_in(x, depth + 1)
+            return out
+        if isinstance(v, DictValue):
+            out = set()
+            for x in v.d.values():
+                out |= self._idents_in(x, depth + 1)
+            return out
+        found = set()
+
+        def f(kind, name, args):
+            if kind == "s" and name in self.trace.idents and name not in self.trace.loop_syms:
+                found.add(name)
+            return NotImplemented
+        try:
+            rewrite(v, f)
+        except Unsupported:
+            return {"?"}
+        return found
+
+    def _note_escape(self, name, node, followed=True):
+        """a call that is not evaluated here: when it may write into what it is handed (it is not a library function known not to) and it is
+        handed an array of the trace - or something unknown - the stores it makes are missing from the trace; recorded in trace.escaped"""
+        if name is not None and name in self.opts.exclude:
+            return
+        pure = followed and name is not None and name not in _INPLACE and (name.startswith(_PURE_PREFIX) or name in _PURE_BUILTINS or name in _NAMESPACES
+                                                                           or name.endswith(("Error", "Warning", "Exception")))
+        vals = []
+        if not pure and isinstance(node.func, ast.Attribute) and followed and not (name or "").startswith(_PURE_PREFIX):
+            if node.func.attr in _PURE_METHODS:
+                pure = True
+            else:
+                vals.append(self.ev(node.func.value))          # the receiver of a method that may change it
+        if pure:
+            vals = [self.ev(k.value) for k in node.keywords if k.arg == "out"]
+        else:
+            vals += [self.ev(x.value if isinstance(x, ast.Starred) else x) for x in node.args] + [self.ev(k.value) for k in node.keywords]
+        every = [self.ev(x.value if isinstance(x, ast.Starred) else x) for x in node.args] + [self.ev(k.value) for k in node.keywords]
+        for v in every:
+            for x in (v if isinstance(v, tuple) else (v,)):
+                sn = sym_name(x) if x is not None and not is_unknown(x) and not isinstance(x, (tuple, DictValue)) else None
+                if sn is not None and (sn in self.trace.closures or (sn not in self.trace.idents and self._resolve(sn) is not None)):
+                    # a function of the evaluated code handed to code that is not followed: it may be called there
+                    self.trace.lost.append((node, getattr(self.fn, "name", "<lambda>"),
+                                            f"`{sn}` is handed to `{name or ast.unparse(node.func)}`, which is not followed: the stores it makes when called there"))
+        ids = set()
+        for v in vals:
+            ids |= self._idents_in(v)
+        if ids:
+            self.trace.escaped.append((node, self.fn.name if hasattr(self.fn, "name") else "<lambda>", name or ast.unparse(node.func), sorted(ids)))
+
+    def _rebind(self, old, new):
+        for k in list(self.env):
+            if self.env[k] is old:
+                self.env[k] = new
+
+    def _literal_key(self, kv):
+        ks = sym_name(kv) if kv is not None and not is_unknown(kv) and not isinstance(kv, (tuple, DictValue)) else None
+        if ks is not None and len(ks) >= 2 and ks[0] in "'\"":
+            try:
+                return ast.literal_eval(ks)
+            except Exception:  # noqa
+                return NotImplemented
+        if ks is None and kv is not None and not is_unknown(kv) and not isinstance(kv, (tuple, DictValue)) and kv.is_const():
+            c = kv.const_value()
+            return int(c) if c.denominator == 1 else float(c)
+        return NotImplemented
+
+    def _container_method(self, node):
+        """a method of a dict / list the evaluator holds item by item: pop / get with a literal key are executed; a method that may change the
+        container in a way that is not modelled makes the container unknown (never: leaves it as it was)"""
+        cur = self.env[node.func.value.id]
+        meth = node.func.attr
+        if meth in _PURE_METHODS or (meth == "append" and isinstance(cur, tuple)):
+            if isinstance(cur, DictValue) and meth == "get" and 1 <= len(node.args) <= 2 and not node.keywords:
+                key = self._literal_key(self.ev(node.args[0]))
+                if key is not NotImplemented:
+                    return cur.d[key] if key in cur.d else (self.ev(node.args[1]) if len(node.args) == 2 else NONE)
+            return NotImplemented
+        if isinstance(cur, DictValue) and meth == "pop" and 1 <= len(node.args) <= 2 and not node.keywords:
+            key = self._literal_key(self.ev(node.args[0]))
+            if key is not NotImplemented and (key in cur.d or len(node.args) == 2):
+                if key in cur.d:
+                    r = cur.d[key]
+                    self._rebind(cur, DictValue({k: v for k, v in cur.d.items() if k != key}))
+                    return r
+                return self.ev(node.args[1])
+        why = Unknown(f"`{node.func.value.id}` after .{meth}()")
+        self._rebind(cur, why)
+        return why
 
     def _opaque(self, name, node):
         """an opaque application that may carry *args / **kwargs"""
@@ -963,25 +1290,71 @@ class PathEval(AutoEvaluator):
     def _record_call(self, node):
         self._record(self._callee_name(node), node)
 
-    def _inline(self, fn2, node, name):
+    def _call_values(self, node):
+        """(positional values, keyword values) of a call with `*seq` / `**{...}` expanded; None when one of them cannot be listed"""
+        pos = []
+        for x in node.args:
+            if isinstance(x, ast.Starred):
+                v = self.ev(x.value)
+                if not isinstance(v, tuple):
+                    return None
+                pos.extend(v)
+            else:
+                pos.append(self.ev(x))
+        kws = {}
+        for k in node.keywords:
+            v = self.ev(k.value)
+            if k.arg is None:
+                if not isinstance(v, DictValue) or not all(isinstance(x, str) for x in v.d):
+                    return None
+                kws.update(v.d)
+            else:
+                kws[k.arg] = v
+        return pos, kws
+
+    def _inline(self, fn2, node, name, closure=None, pre=None):
         a = fn2.args
         params = [x.arg for x in a.posonlyargs + a.args]
-        static = any(isinstance(d, ast.Name) and d.id == "staticmethod" for d in fn2.decorator_list)
-        if params and params[0] in ("self", "cls") and "." in name and not static:
+        static = any(isinstance(d, ast.Name) and d.id == "staticmethod" for d in getattr(fn2, "decorator_list", ()))
+        if closure is None and params and params[0] in ("self", "cls") and "." in name and not static:
             params = params[1:]
-        if a.vararg or a.kwarg or any(isinstance(x, ast.Starred) for x in node.args) or any(k.arg is None for k in node.keywords):
+        if a.vararg or a.kwarg:
             return NotImplemented
-        if len(node.args) > len(params):
+        if any(isinstance(x, (ast.Global, ast.Nonlocal)) for x in ast.walk(fn2)):
             return NotImplemented
-        env = {}
-        for p_, x in zip(params, node.args):
-            env[p_] = self.ev(x)
+        cv = self._call_values(node)
+        if cv is None:
+            return NotImplemented
+        pos, kws = cv
+        if pre is not None:
+            pos, kws = list(pre[0]) + pos, {**pre[1], **kws}
+        if len(pos) > len(params):
+            return NotImplemented
+        env = dict(zip(params, pos))
         kwonly = [x.arg for x in a.kwonlyargs]
-        for k in node.keywords:
-            if k.arg not in params and k.arg not in kwonly:
+        for k, v in kws.items():
+            if (k not in params and k not in kwonly) or k in env:
                 return NotImplemented
-            env[k.arg] = self.ev(k.value)
+            env[k] = v
         sub = PathEval(fn2, self.ctx, self.config, self.opts, trace=self.trace, depth=self.depth + 1, stack=self.stack)
+        if closure is not None:
+            # a function defined inside another one reads the enclosing scope as it is when it is called; what it binds stays its own
+            sub.rel, sub.module_consts = closure.rel, closure.module_consts
+            bound = set(params) | set(kwonly)
+            for k, v in closure.env.items():
+                if k not in bound:
+                    sub.env[k] = v
+            for k, v in closure.alias.items():
+                if k not in bound:
+                    sub.alias[k] = v
+                    if k not in sub.buffers:
+                        sub.env[k] = F.sym(v)
+            for k, v in closure.views.items():
+                if k not in bound:
+                    if k in sub.buffers:
+                        sub.views[k] = v
+                    else:
+                        sub.env[k] = v
         dflt = dict(zip(params[::-1], (a.defaults or [])[::-1]))
         for p_ in params:
             if p_ not in env:
@@ -1002,8 +1375,22 @@ class PathEval(AutoEvaluator):
                     i = self.trace.fresh(p_)
                     self.trace.init[i] = v
                     sub.alias[p_] = i
+                    if v is None or is_unknown(v) or isinstance(v, DictValue) or (not isinstance(v, tuple) and _may_alias(v, self.trace)):
+                        self.trace.opaque.add(i)       # the callee stores through a parameter that may be a view of an array of the trace
             else:
                 sub.env[p_] = v
+        if isinstance(fn2, ast.Lambda):
+            r = sub.ev(fn2.body)
+            return NONE if r is None else r
+        if any(isinstance(x, (ast.Yield, ast.YieldFrom)) for x in ast.walk(fn2)):
+            # a generator function, evaluated eagerly: sound when it only computes (a store made between two yields would be reordered)
+            sub._yields = []
+            n0 = len(self.trace.cells)
+            sub.run(fn2.body)
+            if sub._yield_bad or len(self.trace.cells) != n0:
+                self.trace.lost.append((node, getattr(self.fn, "name", "<lambda>"), f"the generator `{name}` cannot be evaluated eagerly"))
+                return Unknown(f"generator {name}")
+            return tuple(sub._yields)
         sub.run(fn2.body)
         if not sub.returns:
             return NONE
@@ -1013,12 +1400,32 @@ class PathEval(AutoEvaluator):
     # ---- statements
     def run(self, stmts):
         for st in stmts:
-            if self.done or self._cont:
+            if self.done or self._cont or self.trace.raised:
                 break
             self.stmt(st)
 
     def stmt(self, st):
-        if self.done or self._cont:
+        if self.done or self._cont or self.trace.raised:
+            return
+        if isinstance(st, ast.Raise):
+            # the path ends here: nothing after it is executed, nothing is returned
+            self.trace.raised = (st, getattr(self.fn, "name", "<lambda>"))
+            self.done = True
+            return
+        if isinstance(st, ast.FunctionDef):
+            self._assign(ast.copy_location(ast.Name(id=st.name, ctx=ast.Store()), st), self._closure(st), st)
+            return
+        if isinstance(st, ast.Expr) and not isinstance(st.value, (ast.Call, ast.Constant)):
+            self.ev(st.value)          # `yield x`, `c and f()`, a walrus ...: evaluated for what it does
+            return
+        if isinstance(st, ast.Delete):
+            return self._delete(st)
+        if isinstance(st, getattr(ast, "Match", ())):
+            low = _lower_match(st)
+            if low is not None:
+                return self.stmt(low)
+        if not isinstance(st, _LOWERED):
+            self.trace.undecided.append((st, self.fn.name))
             return
         if isinstance(st, ast.Continue):
             self._cont = True
@@ -1055,7 +1462,13 @@ class PathEval(AutoEvaluator):
                 if item.optional_vars is not None:
                     self._assign(item.optional_vars, v, st)
             return self.run(st.body)
-        if isinstance(st, (ast.Try, ast.For)):
+        if isinstance(st, ast.Try):
+            # the path on which nothing raises: body, else, finally (no handler is entered on it; a `raise` reached in the body ends the path)
+            self.run(st.body)
+            self.run(st.orelse)
+            self.run(st.finalbody)
+            return
+        if isinstance(st, ast.For):
             # not lowered: whatever is computed inside is unknown to the rules
             self.trace.undecided.append((st, self.fn.name))
         return super().stmt(st)
@@ -1081,10 +1494,28 @@ class PathEval(AutoEvaluator):
             return
         # generic iteration
         if not self._bind_generic(st.target, it, st):
+            self.trace.undecided.append((st, self.fn.name))
             return super().stmt(st)
         self._cont = self._brk = False
+        self._generic += 1
         self.run(st.body)
+        self._generic -= 1
         self._cont = self._brk = False
+
+    def _delete(self, st):
+        for t in st.targets:
+            if isinstance(t, ast.Name) and t.id not in self.buffers:
+                self.env[t.id] = Unknown(f"`{t.id}` was deleted")
+                continue
+            if isinstance(t, ast.Subscript) and isinstance(t.value, ast.Name) and t.value.id not in self.buffers and isinstance(self.env.get(t.value.id), DictValue):
+                cur = self.env[t.value.id]
+                key = self._literal_key(self.ev(t.slice))
+                if key is not NotImplemented and key in cur.d:
+                    self._rebind(cur, DictValue({k: v for k, v in cur.d.items() if k != key}))
+                else:
+                    self._rebind(cur, Unknown(f"`{t.value.id}` after `{ast.unparse(st)}`"))
+                continue
+            self.trace.lost.append((st, self.fn.name, f"`{ast.unparse(st)}` is not lowered"))
 
     def _bind_generic(self, target, it, st):
         """bind the target of a loop / comprehension for one generic iteration (the counter is a loop symbol); False: not lowered"""
@@ -1108,7 +1539,14 @@ class PathEval(AutoEvaluator):
             # the k-th items of every sequence: one counter
             c = counter(ast.Name(id="<k>"))
             for t, a in zip(target.elts, it.args):
-                self._assign(t, self._element(self.ev(a), c), st)
+                st0 = self._count_start(a)
+                if st0 is None and isinstance(a, ast.Call) and dotted(a.func) == "range" and len(a.args) == 1 and not a.keywords:
+                    self.ev(a.args[0])
+                    st0 = F.const(0)
+                if st0 is not None:
+                    self._assign(t, c + st0, st)          # a counter column: the position itself
+                else:
+                    self._assign(t, self._element(self.ev(a), c), st)
         else:
             itv = self.ev(it)
             self._assign(target, self._element(itv, None), st)
@@ -1126,12 +1564,14 @@ class PathEval(AutoEvaluator):
         self.trace.loop_syms.add(nm)
         self.env[ctr] = F.sym(nm)
         self._cont = self._brk = False
+        self._generic += 1
         for s_ in st.body:
             if s_ is incs[0]:
                 continue
             if self.done or self._cont:
                 break
             self.stmt(s_)
+        self._generic -= 1
         self._cont = self._brk = False
         self.env[ctr] = F.sym(nm)
 
@@ -1147,6 +1587,8 @@ class PathEval(AutoEvaluator):
                     s = sym_name(bv)
                     ident = s if s is not None else repr(bv)
             if ident is None:
+                # a store through something the evaluator has no value for: it may be any array of the trace
+                self.trace.lost.append((st, getattr(self.fn, "name", "<lambda>"), f"a store through `{ast.unparse(base)}`, whose value is not known"))
                 return super()._assign(target, v, st, aug)
             try:
                 ix = self._index_value(target.slice)
@@ -1173,6 +1615,16 @@ class PathEval(AutoEvaluator):
                 self.alias[target.id] = i
             elif target.id not in self.pinned:
                 self.env[target.id] = F.sym(i)
+            return
+        if isinstance(target, ast.Name) and aug and target.id not in self.buffers and target.id not in self.pinned:
+            cur = self.env.get(target.id)
+            cs_ = sym_name(cur) if cur is not None and not is_unknown(cur) and not isinstance(cur, (tuple, DictValue)) else None
+            if cs_ is not None and cs_ in self.trace.idents and cs_ not in self.trace.loop_syms:
+                self.trace.cells.append((cs_, None, v, st, self.trace.tick()))       # `x *= f` on an array: updated in place
+                return
+        if isinstance(target, ast.Name) and target.id in self.buffers and aug and target.id in self.alias and target.id not in self.views:
+            # `x *= f` on an array updates it in place: a store on the whole array, not a new array
+            self.trace.cells.append((self.alias[target.id], None, v, st, self.trace.tick()))
             return
         if isinstance(target, ast.Name) and target.id in self.buffers:
             self.views.pop(target.id, None)
@@ -1214,6 +1666,38 @@ class PathEval(AutoEvaluator):
             if d and d not in self.pinned:
                 self.env[d] = v
             return
+
+
+_LOWERED = (ast.Assign, ast.AnnAssign, ast.AugAssign, ast.If, ast.For, ast.While, ast.With, ast.Return, ast.Expr, ast.Raise, ast.Pass, ast.Assert,
+            ast.Import, ast.ImportFrom, ast.FunctionDef, ast.Continue, ast.Break, ast.Delete, ast.Try)
+
+
+def _lower_match(st):
+    """`match x:` whose cases are literals, alternatives of literals and a final wildcard, without guards: the if / elif chain it means"""
+    def test(pat):
+        if isinstance(pat, ast.MatchValue):
+            return ast.Compare(left=st.subject, ops=[ast.Eq()], comparators=[pat.value])
+        if isinstance(pat, ast.MatchSingleton):
+            return ast.Compare(left=st.subject, ops=[ast.Is()], comparators=[ast.Constant(value=pat.value)])
+        if isinstance(pat, ast.MatchOr):
+            ts = [test(p_) for p_ in pat.patterns]
+            return None if any(t is None for t in ts) else ast.BoolOp(op=ast.Or(), values=ts)
+        return None
+    chain = None
+    for k, case in reversed(list(enumerate(st.cases))):
+        if case.guard is not None:
+            return None
+        if isinstance(case.pattern, ast.MatchAs) and case.pattern.pattern is None and case.pattern.name is None:
+            if k != len(st.cases) - 1:
+                return None
+            chain = list(case.body)
+            continue
+        t = test(case.pattern)
+        if t is None:
+            return None
+        node = ast.If(test=t, body=list(case.body), orelse=chain if isinstance(chain, list) else ([chain] if chain is not None else []))
+        chain = ast.fix_missing_locations(ast.copy_location(node, st))
+    return chain if isinstance(chain, ast.If) else None
 
 
 def _imported_helper(ctx, mod, name):
